@@ -63,12 +63,18 @@ fn transform(rng: &mut Rng, text: &str, which: usize) -> String {
             format!("{} [- é c -] {}", &text[..g], &text[g + 1..])
         }
         5 => { // block comment between two words INSIDE a component (multi-word name, alias, unit, text value, note) or a section name:
-               // these runs are read through text_trimmed, so the recipe must be equal (no white-space allowance is needed)
+               // these runs are read through text_trimmed, so the recipe must be equal (no white-space allowance is needed).
+               // The word in front may be a number (`{1 kg}`, the value-blank-unit form of ADVANCED_UNITS), and the comment
+               // replaces the blank with a blank on both sides, glued to the following word (`1 [- c -]kg`, defect F-C17-1)
+               // or glued to the preceding word (`1[- c -] kg`); at least one blank always remains
             let b = text.as_bytes();
-            let gaps: Vec<usize> = (1..b.len().saturating_sub(1)).filter(|&i| b[i] == b' ' && b[i - 1].is_ascii_lowercase() && b[i + 1].is_ascii_lowercase() && in_component(text, i)).collect();
+            let gaps: Vec<usize> = (1..b.len().saturating_sub(1)).filter(|&i| b[i] == b' ' && (b[i - 1].is_ascii_lowercase() || b[i - 1].is_ascii_digit()) && b[i + 1].is_ascii_lowercase() && in_component(text, i)).collect();
             if gaps.is_empty() { return text.to_string(); }
-            let g = gaps[rng.below(gaps.len())];
-            format!("{} [- é c -] {}", &text[..g], &text[g + 1..])
+            // a gap after a number (value blank unit) is taken half of the time when there is one
+            let num_gaps: Vec<usize> = gaps.iter().copied().filter(|&i| b[i - 1].is_ascii_digit()).collect();
+            let g = if !num_gaps.is_empty() && rng.chance(1, 2) { num_gaps[rng.below(num_gaps.len())] } else { gaps[rng.below(gaps.len())] };
+            let filler = rng.pick_str(&[" [- é c -] ", " [- é c -]", "[- é c -] ", " [- c -]", "[-c-] ", "  [- é c -][- d -] "]);
+            format!("{}{filler}{}", &text[..g], &text[g + 1..])
         }
         _ => { // extra blank / comment-only lines between blocks: after an existing blank line
             let idxs: Vec<usize> = (1..lines.len()).filter(|&i| lines[i].is_empty() && !in_front(&lines, i)).collect();
@@ -138,8 +144,32 @@ fn boundary_witnesses(ctx: &mut Ctx) {
     }
 }
 
+/// the oracle on one pair original / transformed
+fn judge(ctx: &mut Ctx, a: &cooklang::RecipeResult, b: &cooklang::RecipeResult, desc: String, which: &str) {
+    if a.is_valid() != b.is_valid() { ctx.oracle_fail(desc.clone(), format!("validity changed: {} -> {}", b.is_valid(), a.is_valid()), format!("c17:validity:{which}")); }
+    match (a.output(), b.output()) {
+        (Some(x), Some(y)) => { let (lx, ly) = (loose(x), loose(y)); if lx != ly { ctx.oracle_fail(desc, format!("recipe changed\n base: {ly}\n  new: {lx}"), format!("c17:recipe:{which}")); } }
+        (None, None) => {}
+        _ => ctx.oracle_fail(desc, "output presence changed".into(), format!("c17:output:{which}")),
+    }
+}
+
+/// minimal inputs of past findings (corpus/C17-pairs.txt: original line, transformed line, …), run FIRST under no and all
+/// extensions, with the oracle: a regression shows on the first cases
+fn directed_pairs(ctx: &mut Ctx) {
+    let lines = crate::corpus::load("C17-pairs");
+    for pair in lines.chunks(2) {
+        let [base, new] = pair else { continue };
+        for (ext, conv) in [(0xEEAu32, 1u8), (0xEEA, 0), (0, 0)] {
+            let (Some(b), Some(a)) = (recipe_case(ctx, base, ext, conv), recipe_case(ctx, new, ext, conv)) else { continue };
+            ctx.count("directed-pair");
+            judge(ctx, &a, &b, format!("directed pair (transformation #5) ext={ext} conv={conv}\n base={base:?}\n  new={new:?}"), "5");
+        }
+    }
+}
+
 pub fn run(ctx: &mut Ctx) {
-    ctx.rule = "well-formed recipes (as C01, plain spelling) and, for CRLF, also soups without backslash / lone CR; 6 transformations (LF->CRLF, trailing comment, trailing spaces, block comment between two words of step text, extra blank/comment-only lines between blocks, block comment between two words inside a component name / alias / unit / text value / note or a section name) at random insertion points; oracle: the parsed recipe is equal up to whitespace inside step text and validity is equal; original and transformed input both go through the model. non-trivial = recipe with components / several sections / diagnostics".into();
+    ctx.rule = "well-formed recipes (as C01, plain spelling) and, for CRLF, also soups without backslash / lone CR; every other extended recipe with units spelled `{1 kg}`; 6 transformations (LF->CRLF, trailing comment, trailing spaces, block comment between two words of step text, extra blank/comment-only lines between blocks, block comment between two words, or between a number and a word, inside a component name / alias / quantity / unit / text value / note or a section name, with a blank on both sides or glued to either neighbour) at random insertion points, preceded by the directed pairs of corpus/C17-pairs.txt; oracle: the parsed recipe is equal up to whitespace inside step text and validity is equal; original and transformed input both go through the model. non-trivial = recipe with components / several sections / diagnostics".into();
     let mut rng = Rng::new(ctx.seed ^ 0xC17);
     // the side conditions of the CRLF theorem (C17_crlf: CR and LF are neither lexer white space nor word characters)
     // must hold of the character table generated from the real lexer on this run
@@ -148,12 +178,14 @@ pub fn run(ctx: &mut Ctx) {
         ctx.eval(name, true);
         if bits & 1 != 0 || bits & 4 != 0 { ctx.oracle_fail(format!("character {name} (U+{cp:04X})"), format!("the real lexer treats {name} as {} : the hypothesis CrlfSpec of theorem C17_crlf is false of the current lexer, so CRLF conversion can change tokens (e.g. a word swallowing the CR of a line end)", if bits & 1 != 0 { "white space" } else { "a word character" }), "c17:crlf-spec".into()); }
     }
+    directed_pairs(ctx);
     let n = if ctx.thorough { 40_000 } else { 800 };
     for i in 0..n {
         let r = wf::generate(&mut rng, i % 2 == 1);
         let (ext, conv) = if r.extended { (0xEEAu32, 1u8) } else { (0, 0) };
         // names wrapped over a line break exercise line ends inside component names (not step text)
-        let base = wf::spell(&r, &Style { seed: rng.next(), spaces: false, comments: false, wrap: i % 2 == 0, crlf: false, unit_space: false });
+        // every other extended recipe spells its units the ADVANCED_UNITS way (`{1 kg}` instead of `{1%kg}`)
+        let base = wf::spell(&r, &Style { seed: rng.next(), spaces: false, comments: false, wrap: i % 2 == 0, crlf: false, unit_space: i % 4 == 3 });
         let Some(b) = recipe_case(ctx, &base, ext, conv) else { continue };
         for which in 0..6 {
             let t = transform(&mut rng, &base, which);
@@ -161,12 +193,7 @@ pub fn run(ctx: &mut Ctx) {
             ctx.count(&format!("transform{which}"));
             let Some(a) = recipe_case(ctx, &t, ext, conv) else { continue };
             let desc = format!("transformation #{which} ext={ext} conv={conv}\n base={base:?}\n  new={t:?}");
-            if a.is_valid() != b.is_valid() { ctx.oracle_fail(desc.clone(), format!("validity changed: {} -> {}", b.is_valid(), a.is_valid()), format!("c17:validity:{which}")); }
-            match (a.output(), b.output()) {
-                (Some(x), Some(y)) => { let (lx, ly) = (loose(x), loose(y)); if lx != ly { ctx.oracle_fail(desc, format!("recipe changed\n base: {ly}\n  new: {lx}"), format!("c17:recipe:{which}")); } }
-                (None, None) => {}
-                _ => ctx.oracle_fail(desc, "output presence changed".into(), format!("c17:output:{which}")),
-            }
+            judge(ctx, &a, &b, desc, &which.to_string());
         }
     }
     boundary_witnesses(ctx);
